@@ -113,7 +113,7 @@ def rfc_offset(observances, instant_utc):
 
 def gen_observances(rnd, well_separated=True):
     """a plausible zone: a STANDARD/DAYLIGHT pair with yearly rules, or single onsets / RDATE lists"""
-    shape = rnd.choice(["pair_rrule", "pair_rrule", "pair_until", "single", "rdates", "rename", "pair_count"])
+    shape = rnd.choice(["pair_rrule", "pair_rrule", "pair_until", "single", "rdates", "rename", "pair_count", "unchained"])
     base = timedelta(minutes=rnd.choice([-720, -600, -480, -300, -210, 0, 60, 120, 330, 345, 540, 570, 765, 840]))
     dst = base + timedelta(minutes=rnd.choice([60, 60, 30, 120]))
     y0 = rnd.randint(1970, 2010)
@@ -150,6 +150,13 @@ def gen_observances(rnd, well_separated=True):
         return [Obs("STANDARD", datetime(y0, 1, 1, 0), base, base, names[0], None),
                 Obs("DAYLIGHT", ds[0], base, dst, names[1], ("rdate", ds[1:]) if len(ds) > 1 else None),
                 Obs("STANDARD", ss[0], dst, base, names[0], ("rdate", ss[1:]) if len(ss) > 1 else None)]
+    if shape == "unchained":
+        # TZOFFSETFROM of an observance differs from the TZOFFSETTO of the one before it (legal data: the onset is DTSTART - its own
+        # TZOFFSETFROM).  Checked under pytz only: dateutil reads wall times and has no RFC reading for such data.
+        step = timedelta(minutes=rnd.choice([60, 30, 120]))
+        return [Obs("STANDARD", datetime(y0, 1, 1, 0), base, base + step, "AAA", None),
+                Obs("DAYLIGHT", datetime(y0 + 1, 6, 1, 3), base + 2 * step, base + 3 * step, "BBB", None),
+                Obs("STANDARD", datetime(y0 + 2, 10, 1, 3), base + step, base, "CCC", None)]
     # rename: the summer offset becomes the new standard time (same TZOFFSETTO, other name / kind)
     return [Obs("STANDARD", datetime(y0, 1, 1, 0), base, base, "OLD", None),
             Obs("DAYLIGHT", datetime(y0 + 1, 3, 27, 3), base, dst, "SUMMER", None),
@@ -284,6 +291,8 @@ def run(b, tier, seed, findings, known_seen):
         icalendar.timezone.tzp.use(prov)
         try:
             for tzid, obs in zones:
+                if prov == "zoneinfo" and len(obs) == 3 and [o.name for o in obs] == ["AAA", "BBB", "CCC"]:
+                    continue              # unchained offsets: pytz path only
                 cases += len(probe_instants(obs))
                 try:
                     msg = check_zone(prov, tzid, obs)
